@@ -28,17 +28,17 @@ PROP = dict(
          "wells / selected wells) / DEFINE (13 templates over other UDQs, itself, FOPR, WOPR) / UPDATE ON|OFF|NEXT records; "
          "non-trivial = at least two DEFINE evaluations; distinct = distinct hash of (world, tokens) resp. deck text",
     stages=[
-        dict(harness="c17_udq", flavour="plain", cases={Q: 400000, T: 24000000}, timeout={Q: 900, T: 5400}),
+        dict(harness="c17_udq", flavour="plain", cases={Q: 400000, T: 8000000}, timeout={Q: 900, T: 5400}),
         # same generator, but expressions containing a construct whose library mechanism already has a finding are
         # regenerated: explores the rest of the space while those findings are open
-        dict(id="c17_udq_beyond_known", harness="c17_udq", flavour="plain", cases={Q: 200000, T: 12000000},
+        dict(id="c17_udq_beyond_known", harness="c17_udq", flavour="plain", cases={Q: 200000, T: 4000000},
              timeout={Q: 900, T: 5400}, args=["avoid_known=1", "hist_every=0"]),
     ],
-    min_nontrivial={Q: 150000, T: 8000000},
+    min_nontrivial={Q: 150000, T: 2250000},
     coverage_floor=[("c17_udq", "directed_pair_cases_compared", 1750),
-                    ("c17_udq", "expressions_compared", {Q: 300000, T: 18000000}),
-                    ("c17_udq", "histories_compared", {Q: 8000, T: 500000}),
-                    ("c17_udq_beyond_known", "expressions_compared", {Q: 150000, T: 9000000})],
+                    ("c17_udq", "expressions_compared", {Q: 300000, T: 4500000}),
+                    ("c17_udq", "histories_compared", {Q: 8000, T: 120000}),
+                    ("c17_udq_beyond_known", "expressions_compared", {Q: 150000, T: 2250000})],
     exhaustive_subspaces=["all 224 ordered pairs of adjacent binary operators (15 x 15 without ^ ^), 8 generated variants each, "
                           "mapped onto the first 1792 expression cases (evidence: cover op_pair distinct = 224)"],
     not_decided=["associativity of a^b^c and the binding of a sign in front of a ^ operand (guarded, per the design)",
